@@ -2,6 +2,9 @@ module verifharness
 
 go 1.18
 
-require github.com/akrylysov/pogreb v0.0.0
+require (
+	github.com/akrylysov/pogreb v0.0.0
+	github.com/anishathalye/porcupine v1.3.0
+)
 
 replace github.com/akrylysov/pogreb => /repo
